@@ -863,6 +863,7 @@ def render(base, algs):
     w("/- GENERATED by /verif/translate/optimizers.py from primitiv/core/optimizer.{h,cc} and")
     w("   optimizer_impl.{h,cc} of the working tree.  Do not edit; not tracked by git. -/")
     w("import PrimitivModel.Model.Scalar")
+    w("set_option linter.unusedVariables false")
     w("namespace Primitiv.Gen.Opt")
     w("open Primitiv.Opt")
     w("")
